@@ -108,7 +108,11 @@ func (d Doc) Validate() []Problem {
 				typ := typeOf(t["type"])
 				for i, m := range en {
 					if typ != "" && !jsonTypeMatches(typ, m) {
-						add("enum-member-type", fmt.Sprintf("%s/enum/%d", ptr, i), "member %v (%T) is not of declared type %q", m, m, typ)
+						class := "enum-member-type:inline-schema"
+						if parts := strings.Split(ptr, "/"); len(parts) == 4 && parts[1] == "components" && parts[2] == "schemas" {
+							class = "enum-member-type:enum-component" // the schema of a declared Go enum
+						}
+						add(class, fmt.Sprintf("%s/enum/%d", ptr, i), "member %v (%T) is not of declared type %q", m, m, typ)
 						break
 					}
 				}
